@@ -122,8 +122,13 @@ def r2_truncate(ctx, repo):
             else:
                 kt = text(canon(key, ldefs))
                 coarse = any(k_ in kt for k_ in ("round(", "int(", "//", "floor(", "format(", "%"))
-                exact = kt in ("tuple(%s.vector)" % lv, lv, "hash(%s)" % lv, "tuple(x for x in %s.vector)" % lv)
-                if coarse:
+                exact = kt in ("tuple(%s.vector)" % lv, lv, "tuple(x for x in %s.vector)" % lv)
+                hashed = kt in ("hash(%s)" % lv, "hash(tuple(%s.vector))" % lv, "%s.__hash__()" % lv)
+                if hashed:
+                    problems.append(("violated", "designs are de-duplicated by the key %s alone: equal hashes do not imply equal designs (in CPython hash(-1.0) == hash(-2.0), and any 64-bit "
+                                                 "collision), so a distinct design is discarded; a set or a dict keyed by the design itself consults equality as well" % kt))
+                    tags[dct] = ("BADDEDUP",)
+                elif coarse:
                     problems.append(("violated", "designs are de-duplicated by the key %s, which merges designs that differ by less than the rounding step although they are different design points (equality is 1e-10): distinct designs are dropped and fewer than min(k, distinct) survive" % kt))
                     tags[dct] = ("BADDEDUP",)
                 elif exact:
